@@ -43,13 +43,17 @@ unsigned in_W, in_A, in_S, in_g, in_slot; uint64_t in_seq0;
 /* ---- ghost state ---- */
 uint64_t ver[XV_S];                    /* version of a slot's contents: bumped by the environment whenever it modifies the slot */
 uint64_t shadow_seq;                   /* value of _seq after the last write to it */
-/* last observation of _seq by the thread under test, with a snapshot of the slot that sequence value designates */
-uint64_t obs_v, obs_ver; unsigned obs_slot; unsigned char obs_snap; _Bool obs_valid;
-/* copy of the observation current when read_data was entered the last time; slot handed to read_data/store_data */
-uint64_t rd_obs_v, rd_obs_ver; unsigned rd_obs_slot; unsigned char rd_obs_snap; unsigned rd_calls, st_calls;
-unsigned cur_slot, rd_slot, st_slot; uint64_t st_seq;
+/* last observation (load) of _seq by the thread under test; env_since_obs: an environment step happened after it */
+uint64_t obs_v; _Bool obs_valid, env_since_obs;
+/* the read_data call in progress / last made: the observation it is based on, the slot it was handed (as computed by the code),
+ * snapshot (ghost byte in_g) and version of that slot at entry.  rd_fresh: nothing happened between the observation and the entry,
+ * so the snapshot is the slot's contents at the moment _seq was observed.  rd_dirty: the environment wrote the slot after the entry.
+ * ref_valid: from the entry until the next observation of _seq the environment refers to (rd_obs_v >> 1, rd_slot) - see xv_env. */
+uint64_t rd_obs_v, rd_ver, rd_seq; unsigned char rd_snap; _Bool rd_fresh, rd_dirty, ref_valid, rd_locked; unsigned rd_calls, st_calls;
+unsigned cur_slot, rd_slot, st_slot; uint64_t st_seq; _Bool st_locked;
 /* per-access bookkeeping */
 unsigned n_seq_loads, n_data_loads, n_data_stores, n_seq_stores, n_cas, n_cas_ok, g_rd_count, g_wr_count; uint64_t g_rd_ver;
+uint64_t cas_ok_clock, unlock_clock, rd_clock, st_clock, fn_clock;
 _Bool acc_oob, acc_misaligned, seq_load_weak, fence_missing, pending_data_loads, lock_mine, guar_bad, rel_weak, cas_weak, rel_fence_since, wfence_missing;
 /* update functor stub */
 unsigned fn_calls; unsigned char fn_in_g, fn_out_g; uint64_t fn_seq; _Bool fn_locked; int fn_id;
@@ -61,19 +65,17 @@ static _Bool mon_clean(void) {
 static void havoc_shared(void);
 
 /* ---- loop invariants (INT runs) ----
- * reader: the local seq is the last observed value of _seq; _seq has not decreased since; and as long as _seq has not passed
- * 2*(obs_v>>1) + 2*slots - 2 the slot designated by the observation still holds the byte (and version) it held when observed. */
-#define SL_STABLE_LIMIT(v) ((((v) >> 1) << 1) + 2 * (uint64_t)XV_S - 2)
-#define SL_INV_READER (obs_valid && seq == obs_v && obs_v >= in_seq0 && g_sl->_seq >= obs_v && g_sl->_seq <= MAXSEQ && shadow_seq == g_sl->_seq \
-   && obs_slot == (unsigned)((obs_v >> 1) % slots) \
-   && (g_sl->_seq <= SL_STABLE_LIMIT(obs_v) ? (g_sl->_data[obs_slot].b[in_g] == obs_snap && ver[obs_slot] == obs_ver) : 1) \
-   && mon_clean())
+ * reader, at the head of the retry loop and of the single-slot wait loop: the local seq is the value of the last observation of
+ * _seq, nothing has happened since that observation (the code makes no atomic access between observing _seq and (re-)entering the
+ * loop), the observed values never decrease below the value at call time, and this thread has written nothing. */
+#define SL_INV_READER (obs_valid && seq == obs_v && obs_v >= in_seq0 && obs_v <= MAXSEQ && g_sl->_seq == obs_v && shadow_seq == obs_v \
+   && !env_since_obs && !ref_valid && mon_clean())
 #define XV_INV_LOAD SL_INV_READER
 #define XV_INV_WAIT SL_INV_READER
 #define XV_HAVOC_LOAD result = nondet_T(); havoc_shared(); seq = obs_v /* self: _seq, _data and all ghost state; idx, seq2 are body-local */
 #define XV_HAVOC_WAIT result = nondet_T(); havoc_shared(); seq = obs_v /* self: _seq, _data */
 /* acquire_lock: nothing written by this thread so far */
-#define SL_INV_ACQ (g_sl->_seq <= MAXSEQ && shadow_seq == g_sl->_seq && !lock_mine && !guar_bad && !cas_weak \
+#define SL_INV_ACQ (g_sl->_seq <= MAXSEQ && shadow_seq == g_sl->_seq && !lock_mine && !guar_bad && !cas_weak && !ref_valid \
    && n_cas_ok == 0 && n_seq_stores == 0 && n_data_stores == 0)
 #define XV_INV_ACQ SL_INV_ACQ
 #define XV_INV_ACQW SL_INV_ACQ
@@ -106,7 +108,7 @@ static void mon_load(const void* addr, uint64_t v, int o) {
     n_seq_loads++;
     if (!XV_IS_ACQUIRE(o)) seq_load_weak = 1;
     if (pending_data_loads) fence_missing = 1;          /* data words were loaded and no acquire fence separates them from this load of _seq */
-    obs_valid = 1; obs_v = v; obs_slot = (unsigned)((v >> 1) % slots); obs_snap = g_sl->_data[obs_slot].b[in_g]; obs_ver = ver[obs_slot];
+    obs_valid = 1; obs_v = v; env_since_obs = 0; ref_valid = 0;
   } else { n_data_loads++; pending_data_loads = 1; mon_data(addr, 0); }
 }
 static void mon_store(const void* addr, uint64_t v, int o) {
@@ -114,7 +116,7 @@ static void mon_store(const void* addr, uint64_t v, int o) {
     n_seq_stores++;
     if (!(lock_mine && (shadow_seq & 1) && v == shadow_seq + 1)) guar_bad = 1;   /* only the lock holder writes _seq, and only odd -> odd+1 */
     if (!XV_IS_RELEASE(o)) rel_weak = 1;
-    lock_mine = 0; shadow_seq = v;
+    lock_mine = 0; shadow_seq = v; unlock_clock = xv_clock;
   } else {
     n_data_stores++;
     /* guarantee: data is written only by the lock holder, while _seq is the odd value 2j+1 it installed, and only into slot (j+1) mod slots */
@@ -130,47 +132,57 @@ static void mon_cas(const void* addr, uint64_t e, uint64_t d, _Bool ok, int o) {
     n_cas_ok++;
     if ((e & 1) || d != e + 1 || lock_mine) guar_bad = 1;   /* the lock is taken only from an even value, even -> even+1 */
     if (!XV_IS_ACQUIRE(o)) cas_weak = 1;
-    lock_mine = 1; rel_fence_since = 0; shadow_seq = d;
+    lock_mine = 1; rel_fence_since = 0; shadow_seq = d; cas_ok_clock = xv_clock;
   }
 }
 static void mon_fence(int o) {
   if (XV_IS_ACQUIRE(o)) pending_data_loads = 0;
   if (XV_IS_RELEASE(o)) rel_fence_since = 1;
 }
+/* index of the slot a storage_t pointer designates (XV_S if none) */
+static unsigned slot_index(const struct seqlock* self, const storage_t* p) {
+  unsigned r = XV_S;
+  for (unsigned s = 0; s < XV_S; s++) if (p == &self->_data[s]) r = s;
+  return r;
+}
 static void SL_READ_DATA(const struct seqlock* self, T* dest, const storage_t* src) {
-  cur_slot = (unsigned)(src - self->_data); rd_slot = cur_slot; rd_calls++;
-  rd_obs_v = obs_v; rd_obs_ver = obs_ver; rd_obs_slot = obs_slot; rd_obs_snap = obs_snap; g_rd_count = 0;
+  cur_slot = slot_index(self, src); rd_slot = cur_slot; rd_calls++; rd_clock = xv_clock; rd_locked = lock_mine; rd_seq = self->_seq;
+  rd_obs_v = obs_v; rd_fresh = obs_valid && !env_since_obs && self->_seq == obs_v;
+  rd_snap = cur_slot < XV_S ? self->_data[cur_slot].b[in_g] : 0; rd_ver = cur_slot < XV_S ? ver[cur_slot] : 0;
+  rd_dirty = 0; ref_valid = 1; g_rd_count = 0;
   /* case split on the slot (proof technique: inside each branch the callee sees a constant slot address) */
   for (unsigned s = 0; s < XV_S; s++) if (cur_slot == s) sl_read_data(self, dest, &self->_data[s]);
   if (cur_slot >= XV_S) sl_read_data(self, dest, src);
 }
 static void SL_STORE_DATA(struct seqlock* self, const T* src, storage_t* dest) {
-  cur_slot = (unsigned)(dest - self->_data); st_slot = cur_slot; st_calls++; st_seq = self->_seq; g_wr_count = 0;
+  cur_slot = slot_index(self, dest); st_slot = cur_slot; st_calls++; st_seq = self->_seq; st_clock = xv_clock; st_locked = lock_mine; g_wr_count = 0;
   for (unsigned s = 0; s < XV_S; s++) if (cur_slot == s) sl_store_data(self, src, &self->_data[s]);
   if (cur_slot >= XV_S) sl_store_data(self, src, dest);
 }
 /* update's functor: records what it was applied to, returns an arbitrary new value */
 static void XV_FUNCTOR(int func, T* value) {
-  fn_calls++; fn_id = func; fn_in_g = value->b[in_g]; fn_seq = g_sl->_seq; fn_locked = lock_mine;
+  fn_calls++; fn_id = func; fn_in_g = value->b[in_g]; fn_seq = g_sl->_seq; fn_locked = lock_mine; fn_clock = xv_clock;
   *value = nondet_T(); fn_out_g = value->b[in_g];
 }
 
 static void reset_monitors(void) {
   n_seq_loads = n_data_loads = n_data_stores = n_seq_stores = n_cas = n_cas_ok = g_rd_count = g_wr_count = 0; rd_calls = st_calls = fn_calls = 0;
   acc_oob = acc_misaligned = seq_load_weak = fence_missing = pending_data_loads = lock_mine = guar_bad = rel_weak = cas_weak = wfence_missing = 0;
-  rel_fence_since = 0; obs_valid = 0;
+  rel_fence_since = 0; obs_valid = 0; env_since_obs = 0; ref_valid = 0; rd_fresh = rd_dirty = rd_locked = st_locked = 0;
 }
 static void havoc_shared(void) {
   *g_sl = nondet_seqlock(); shadow_seq = g_sl->_seq;
   for (unsigned s = 0; s < XV_S; s++) ver[s] = nondet_u64();
-  obs_v = nondet_u64(); obs_ver = nondet_u64(); obs_slot = (unsigned)((obs_v >> 1) % slots); obs_snap = nondet_uchar(); obs_valid = nondet_bool();
-  rd_obs_v = nondet_u64(); rd_obs_ver = nondet_u64(); rd_obs_slot = nondet_uint(); rd_obs_snap = nondet_uchar();
+  obs_v = nondet_u64(); obs_valid = nondet_bool(); env_since_obs = nondet_bool();
+  rd_obs_v = nondet_u64(); rd_ver = nondet_u64(); rd_seq = nondet_u64(); rd_snap = nondet_uchar();
+  rd_fresh = nondet_bool(); rd_dirty = nondet_bool(); ref_valid = nondet_bool(); rd_locked = nondet_bool(); st_locked = nondet_bool();
   rd_calls = nondet_uint(); st_calls = nondet_uint(); cur_slot = nondet_uint(); rd_slot = nondet_uint(); st_slot = nondet_uint(); st_seq = nondet_u64();
   n_seq_loads = nondet_uint(); n_data_loads = nondet_uint(); n_data_stores = nondet_uint(); n_seq_stores = nondet_uint(); n_cas = nondet_uint(); n_cas_ok = nondet_uint();
   g_rd_count = nondet_uint(); g_wr_count = nondet_uint(); g_rd_ver = nondet_u64();
   seq_load_weak = nondet_bool(); fence_missing = nondet_bool(); pending_data_loads = nondet_bool(); lock_mine = nondet_bool(); guar_bad = nondet_bool();
   rel_weak = nondet_bool(); cas_weak = nondet_bool(); rel_fence_since = nondet_bool(); wfence_missing = nondet_bool();
-  xv_clock = nondet_u64();
+  xv_clock = nondet_u64(); XV_ASSUME(xv_clock < MAXSEQ);
+  cas_ok_clock = nondet_u64(); unlock_clock = nondet_u64(); rd_clock = nondet_u64(); st_clock = nondet_u64(); fn_clock = nondet_u64();
 #ifdef XV_INT
   env_writes = nondet_uint();
 #endif
@@ -180,20 +192,28 @@ static void init_inputs(void) {
 }
 
 #ifdef XV_INT
-static void env_write(unsigned s) { g_sl->_data[s] = nondet_storage(); ver[s]++; env_writes++; }
+static void env_write(unsigned s) {       /* s is a constant at every call site */
+  g_sl->_data[s] = nondet_storage(); ver[s]++; env_writes++;
+  if (ref_valid && s == rd_slot) rd_dirty = 1;
+}
 void xv_env(void) {
   if (!env_on || lock_mine) return;                 /* R3 */
+  env_since_obs = 1;
   uint64_t a = g_sl->_seq, b = nondet_u64();
   XV_ASSUME(b >= a && b <= MAXSEQ);                 /* R1 */
   /* R2: the write targets of the odd values 2j+1 in [a, b] are the slots t mod slots for t = j+1 in [lo, hi] */
-  uint64_t lo = (a >> 1) + 1, hi = (b + 1) >> 1, k = obs_v >> 1;
+  uint64_t lo = (a >> 1) + 1, hi = (b + 1) >> 1, k = rd_obs_v >> 1;
   if (hi >= lo) {
-    if (!obs_valid || a < obs_v || hi - k >= XV_S) {
-      for (unsigned s = 0; s < XV_S; s++) env_write(s);          /* a superset of what R2 allows (no observation to refer to, or a full round of slots) */
+    if (!ref_valid || a < rd_obs_v || rd_slot >= XV_S || hi - k >= XV_S) {
+      for (unsigned s = 0; s < XV_S; s++) env_write(s);          /* a superset of what R2 allows (nothing to refer to, or a full round of slots) */
     } else {
-      /* k < lo <= hi < k + slots: t mod slots == (k mod slots + (t - k)) mod slots  (lemma sl.env.mod_lemma), and k mod slots is obs_slot */
-      for (unsigned e = 1; e < XV_S; e++)
-        if (lo - k <= e && e <= hi - k) env_write((obs_slot + e) % XV_S);
+      /* A read_data call is in progress on slot rd_slot, which is k mod slots for k = rd_obs_v >> 1 (obligation sl.slot.reader, checked
+       * for every 64-bit value in this run).  Here k < lo <= hi < k + slots, and t mod slots == (k mod slots + (t - k)) mod slots
+       * (sl.env.mod_lemma): slot s is a target iff its distance e = (s - rd_slot) mod slots lies in [lo - k, hi - k]. */
+      for (unsigned s = 0; s < XV_S; s++) {
+        unsigned e = s >= rd_slot ? s - rd_slot : s + XV_S - rd_slot;
+        if (lo - k <= e && e <= hi - k) env_write(s);
+      }
     }
   }
   g_sl->_seq = b; shadow_seq = b;
@@ -294,6 +314,11 @@ void h_update(void) {
   XV_OBL("sl.update.applies", gs == tgt || sl._data[gs].b[in_g] == old);
   XV_OBL("sl.lock.parity", sl._seq == in_seq0 + 2 && !lock_mine && n_cas_ok == 1 && n_seq_stores == 1);
   XV_OBL("sl.slot.writer", st_calls == 1 && st_slot == tgt && rd_calls == 1 && rd_slot == cur);
+  /* the snapshot that feeds the functor is taken under the lock: after the CAS, before the unlocking store, from the slot designated by
+   * the sequence value acquire_lock returned; the functor runs and the store goes to the next slot under that same sequence value */
+  XV_OBL("sl.update.read_under_lock", rd_calls == 1 && rd_locked && rd_seq == in_seq0 + 1 && rd_slot == (unsigned)((rd_seq >> 1) % XV_S));
+  XV_OBL("sl.update.read_under_lock", st_calls == 1 && st_locked && st_seq == rd_seq && st_slot == (unsigned)(((rd_seq >> 1) + 1) % XV_S));
+  XV_OBL("sl.update.read_under_lock", cas_ok_clock <= rd_clock && rd_clock < fn_clock && fn_clock <= st_clock && st_clock < unlock_clock);
   XV_OBL("sl.writer.guarantee", !guar_bad && !acc_oob);
   XV_OBL("sl.store.sync", !wfence_missing && !rel_weak && !cas_weak);
   T r = sl_load(&sl);
@@ -353,13 +378,17 @@ void h_load_int(void) {
   env_on = 1;
   T r = sl_load_cut(&sl);
   env_on = 0;
-  /* the bytes were read from the slot designated by an observation of _seq made during the call ... */
-  XV_OBL("sl.load.untorn", rd_slot == rd_obs_slot && rd_obs_slot == (unsigned)((rd_obs_v >> 1) % XV_S));
+  /* the bytes were read from the slot designated (writer's 64-bit slot function) by an observation v of _seq made during the call,
+   * with nothing happening between that observation and the start of the copy ... */
+  XV_OBL("sl.slot.reader", rd_slot == (unsigned)((rd_obs_v >> 1) % XV_S));
+  XV_OBL("sl.load.untorn", rd_fresh);
   /* ... which (single slot) was even, i.e. no writer was inside ... */
   XV_OBL("sl.load.untorn", XV_S > 1 || !(rd_obs_v & 1));
-  /* ... every byte was read while the slot still had the version it had at that observation, and equals the byte it held then */
-  XV_OBL("sl.load.untorn", g_rd_count == 1 && g_rd_ver == rd_obs_ver);
-  XV_OBL("sl.load.untorn", r.b[in_g] == rd_obs_snap);
+  /* ... the slot was not written between that observation and the validating load of _seq ... */
+  XV_OBL("sl.load.untorn", !rd_dirty);
+  /* ... so every byte was read while the slot still had the version it had at that observation, and equals the byte it held then */
+  XV_OBL("sl.load.untorn", g_rd_count == 1 && g_rd_ver == rd_ver);
+  XV_OBL("sl.load.untorn", r.b[in_g] == rd_snap);
   /* not older than the last store completed before the call; and load writes nothing */
   XV_OBL("sl.load.fresh", rd_obs_v >= in_seq0 && (rd_obs_v >> 1) >= (in_seq0 >> 1));
   XV_OBL("sl.load.readonly", n_data_stores == 0 && n_seq_stores == 0 && n_cas == 0);
